@@ -102,6 +102,7 @@ def transcribe(events):
     pending_close = None
     closed = set()
     waiting = []  # readers that were created and have not logged anything since
+    started = set()
     for event in events:
         kind = event["ev"]
         sid = event["sid"]
@@ -141,6 +142,14 @@ def transcribe(events):
         if sid in waiting:
             waiting.remove(sid)
         if kind == "reader_start":
+            if sid in started:
+                # rows() is called once more on the same reader (ReadAgain): what it logs from now on is a new pass
+                if sid in closed:
+                    raise Skip("a closed reader is read again")
+                rows = []
+                rows_of[sid] = rows
+                result.append({"ev": "again", "sid": sid, "rows": rows})
+            started.add(sid)
             result.append({"ev": "reader_start", "sid": sid, "sizes": event["sizes"], "acc": event["acc"], "rej": event["rej"]})
         elif kind == "row":
             row = abstract_row(event, nfields)
@@ -295,7 +304,7 @@ def validate_transcribed(report, shape, transcribed_traces, label, cids=None, ro
             with open(cfg, "w", encoding="utf-8") as out:
                 out.write("INIT TInit\nNEXT TNext\nCONSTANTS\n  NFields = %d\n  Checks <- TrChecks\n  Header = %d\n"
                           "  Tables <- NoTables\n  Modes <- NoModes\n  Limits <- NoModes\n  Apis <- NoModes\n  Ends <- NoModes\n"
-                          "  Writers = TRUE\n  MaxOps = 0\n  ResetOnOpen = TRUE\n  ResetOnStart = TRUE\n  Parking = FALSE\n  RegisterOnReach = %s\n"
+                          "  Writers = TRUE\n  MaxOps = 0\n  ResetOnOpen = TRUE\n  ResetOnStart = TRUE\n  Parking = FALSE\n  Rereads = FALSE\n  RegisterOnReach = %s\n  RegisterBeforeWrite = TRUE\n"
                           "  EndChecksOnError = FALSE\n  LogCalls = FALSE\nINVARIANT Progress\nCHECK_DEADLOCK FALSE\n"
                           % (shape["nfields"], shape["header"], ror))
             result = core.tlc(module, cfg, env={"TRACE_FILE": trace_file}, coverage=False, tag="tracetlc", workers=8)
